@@ -554,7 +554,11 @@ def _parse_read_reply(tag, data) -> Tag:
                         None,
                     )
 
-            tag_value = unpack_func(data[new_value : new_value + data_size])
+            if tag["file_type"] == "F":
+                # a float has no bits of its own, the bit is the one of the element's first word (the word a bit write masks)
+                tag_value = UINT.decode(data[new_value : new_value + 2])
+            else:
+                tag_value = unpack_func(data[new_value : new_value + data_size])
             return Tag(tag["tag"], get_bit(tag_value, bit_position), tag["file_type"], None)
 
         else:
